@@ -5,10 +5,10 @@ from fractions import Fraction
 
 from ..core import rule
 from ..index import AnalysisError, dotted, src, walk_no_nested, names_in
-from ..cfg import CFG
+from ..cfg import CFG, UNK
 from ..domains import check_pred, eval_pred, cmp_atoms, NotComparisonOnly
-from ..util import node_calls, own_expr
-from .slots import COUNTTABLE
+from ..util import node_calls, own_expr, truthiness_uses, explore
+from .slots import COUNTTABLE, BASEDEMUX
 
 RS = 'read_should_be_counted'
 AR = 'assignReads'
@@ -311,6 +311,37 @@ def r5(ctx):
     s1 = [s for s in walk_no_nested(g) if isinstance(s, ast.Assign) and src(s.targets[0]) == 'sample' and 'readTag(read, tag)' in src(s.value) and 'sampleTags' in src(s.value)]
     s2 = [s for s in walk_no_nested(g) if isinstance(s, ast.Assign) and src(s.targets[0]) == 'feat' and 'readTag(read, tag)' in src(s.value)]
     ctx.emit('C11-R5', bool(s1) and bool(s2), COUNTTABLE, g, 'sample and feature values are read from the same read via readTag', key='same-read', nontrivial=False)
+
+
+@rule('C11', 'C11-R6', 'a read is counted under its own values and every blacklisted interval is consulted: tag / attribute values are never tested for '
+                       'truth (0 and "" are legitimate values), the placeholder is returned only when reading the value failed, and the blacklist scan '
+                       'has no early exit')
+def r6(ctx):
+    is_src = lambda c: (isinstance(c.func, ast.Attribute) and c.func.attr in ('get_tag', 'metaFromRead')) or (isinstance(c.func, ast.Name) and c.func.id in ('getattr', 'metaFromRead', 'readTag'))
+    n = 0
+    for rel, q in ((COUNTTABLE, 'readTag'), (BASEDEMUX, 'metaFromRead')):
+        f = ctx.fn(rel, q)
+        uses = truthiness_uses(f, is_src)
+        n += 1
+        ctx.emit('C11-R6', not uses, rel, uses[0][0] if uses else f, f'{q}: no value read from the alignment is tested for truth' if not uses else
+                 f'{q}: {uses[0][1]}: a value of 0 / "" is treated as missing and the read is counted under the placeholder', key=f'{q}:no-truthiness-test',
+                 what=f'{q}: a falsy tag value (0, "") is treated as missing')
+    # readTag: the placeholder is only returned from the exception arm
+    f = ctx.fn(COUNTTABLE, 'readTag')
+    dflt = f.args.args[2].arg if len(f.args.args) > 2 else 'defective'
+    rs = explore(f.body, lambda e: UNK, names=None)
+    bad = [r for r in rs if r['kind'] == 'return' and r['stmt'] is not None and r['stmt'].value is not None and
+           (src(r['stmt'].value) == dflt or (isinstance(r['stmt'].value, ast.Name) and src(r['env'].get(r['stmt'].value.id, ast.Constant(0))) == dflt))]
+    ctx.emit('C11-R6', not bad, COUNTTABLE, f, 'readTag: on the normal path the value that was read is returned unchanged (the placeholder only comes from the except arm)' if not bad else
+             'readTag: a normal (non-exception) path returns the placeholder instead of the value read', key='readTag:placeholder-only-on-failure')
+    g = ctx.fn(COUNTTABLE, 'read_should_be_counted')
+    loops = [l for l in walk_no_nested(g) if isinstance(l, ast.For) and 'blacklist' in src(l.iter)]
+    ctx.need('C11-R6', len(loops), 1, 'blacklist scan loops in read_should_be_counted')
+    for l in loops:
+        brk = [x for x in walk_no_nested(l) if isinstance(x, ast.Break)]
+        ctx.emit('C11-R6', not brk, COUNTTABLE, brk[0] if brk else l, 'the blacklist scan visits every interval of the contig until one contains the read' if not brk else
+                 'the blacklist scan stops early (`break`): intervals listed after that point are never consulted (the list is in file order, not sorted)',
+                 key='blacklist-scan-complete', what='read_should_be_counted: the blacklist scan has an early exit')
 
 
 META = {
